@@ -18,7 +18,7 @@ try:
 except ImportError:
     pass
 
-EXTERNAL_MODELS = {**RUST_MODELS, **TUNNEL_MODELS}
+EXTERNAL_MODELS = {**RUST_MODELS, **TUNNEL_MODELS, **DH_MODELS}
 TCLS = f"resolve_class('{TC}::TunnelCommunity')"
 
 
